@@ -240,9 +240,17 @@ theorem noTok_checks (l : Str) (h : NoTok l) : isTok l = false ∧ check1 l = fa
       [':','t','y','p','e'], [':','r','a','i','s','e','s'], [':','r','e','t','u','r','n'], [':','r','t','y','p','e']] : List Str) →
       startsWith l t = false := by
     intro t ht; exact noTok_startsWith l t h (by rw [allRestTokens_eq]; exact ht)
+  have a1 := hm [':','p','a','r','a','m'] (by simp)
+  have a2 := hm [':','t','y','p','e'] (by simp)
+  have a3 := hm [':','r','e','t','u','r','n'] (by simp)
+  have a4 := hm [':','r','t','y','p','e'] (by simp)
+  have a5 := hm [':','r','a','i','s','e','s'] (by simp)
+  have a6 := hm [':','c','v','a','r'] (by simp)
+  have a7 := hm [':','i','v','a','r'] (by simp)
+  have a8 := hm [':','v','a','r'] (by simp)
   refine ⟨?_, ?_, ?_⟩
   · unfold isTok; rw [restTokens_eq]
-    simp only [List.any_cons, List.any_nil, hm _ (by simp), Bool.or_self]
+    simp only [List.any_cons, List.any_nil, a1, a2, a3, a4, Bool.or_self]
   · unfold check1
     apply any_false_of
     intro t ht
@@ -250,7 +258,7 @@ theorem noTok_checks (l : Str) (h : NoTok l) : isTok l = false ∧ check1 l = fa
     | false => rfl
     | true => have := contains_of_drop1 l t hc; rw [h t ht] at this; cases this
   · unfold check2; rw [otherTokens_eq]
-    simp only [List.any_cons, List.any_nil, hm _ (by simp), Bool.or_self]
+    simp only [List.any_cons, List.any_nil, a5, a6, a7, a8, Bool.or_self]
 
 theorem notok_line (a b : Str) (ha : ':' ∉ a) (x : Char) (r : Str) (hx : x ≠ ' ')
     (hb : contains b (':' :: x :: r) = false) : contains (a ++ ':' :: ' ' :: b) (':' :: x :: r) = false := by
